@@ -166,15 +166,19 @@ func (c *replacerCompiler) compileFile(file *pgo.File) FileReplacer {
 
 // Replace replaces a file using the provided Match data.
 func (r FileReplacer) Replace(d data.Data, cl Changelog) (*ast.File, error) {
+	f, _, err := r.replace(d, cl)
+	return f, err
+}
+
+// replace is Replace that also reports how many of the matches were
+// rewritten. If none was, the file is returned as it is.
+func (r FileReplacer) replace(d data.Data, cl Changelog) (_ *ast.File, replaced int, _ error) {
 	var fd fileMatchData
 	if !data.Lookup(d, fileMatchKey, &fd) {
-		return nil, errors.New("no file match data found")
+		return nil, 0, errors.New("no file match data found")
 	}
 
 	file := fd.File
-	if r.Package != "" {
-		file.Name.Name = r.Package
-	}
 
 	// Matches were recorded in pre-order: a match precedes the matches
 	// nested inside it. Replace in reverse, innermost first, so that a match
@@ -205,7 +209,7 @@ func (r FileReplacer) Replace(d data.Data, cl Changelog) (*ast.File, error) {
 			if errors.As(err, &misfit) {
 				continue
 			}
-			return nil, err
+			return nil, 0, err
 		}
 
 		// If the generated value isn't assignable to the target, the match
@@ -214,7 +218,19 @@ func (r FileReplacer) Replace(d data.Data, cl Changelog) (*ast.File, error) {
 		// declaration name, for example).
 		if give.Type().AssignableTo(v.Type()) {
 			v.Set(give)
+			replaced++
 		}
+	}
+
+	// If every match was left alone, the change does nothing to this file:
+	// not to its package clause or imports either, and the file is not to be
+	// printed anew.
+	if replaced == 0 {
+		return file, 0, nil
+	}
+
+	if r.Package != "" {
+		file.Name.Name = r.Package
 	}
 
 	// Imports are added only now. A match of a top-level declaration is
@@ -222,11 +238,11 @@ func (r FileReplacer) Replace(d data.Data, cl Changelog) (*ast.File, error) {
 	// inserts a new declaration in front of all others.
 	newImports, err := r.Imports.Replace(d, cl, file)
 	if err != nil {
-		return nil, err
+		return nil, 0, err
 	}
 
 	err = r.Imports.Cleanup(d, file, newImports)
-	return file, err
+	return file, replaced, err
 }
 
 type _fileMatchKey struct{}
